@@ -582,6 +582,8 @@ def protected_join(func, call):
 
 
 VARIANTS = [
+    M('R4', CF, "            self.commander.send_setpoint(0, 0, 0, 0)\n        if (self.link is not None):\n            self.link.close()", "            self.commander.send_setpoint(0, 0, 0, 0)\n            self.link.close()", 'link not re-tested after the zero setpoint'),
+    M('R10', CF, "            pk = link.receive_packet(1)", "            pk = link.receive_packet(-1)", 'dispatcher blocks for ever on one link'),
     M('R2', PM, "            for n in self.toc.toc[g]:\n                if n not in self.values[g]:\n                    return False\n", "", 'a group with one value counts as complete'),
     M('R2', PM, "            if self._check_if_all_updated() and not self.is_updated:", "            if not self.is_updated:", 'all_updated on the first value'),
     M('R2', PM, "        self.values = {}\n        self._initialized.clear()", "        self._initialized.clear()", 'values survive reconnect'),
